@@ -111,12 +111,25 @@ def ctx_direct(p, inq):
     return True
 
 
-def direct_matches(k, objs, inq_obj):
+def direct_matches(k, objs, inq_obj, internal=None):
     """model-free restatement of 'policy matches the inquiry': four separate calls per policy.
-    returns list of True / False / 'raise' per policy"""
+    returns list of True / False / 'raise' per policy; `internal` (a list) receives, per policy, the
+    names of exceptions that pattern compilation raised *inside* the checker while that policy was evaluated"""
     ch = make_checker(k)
+    raised = []
+    if k == 'KR':
+        inner = ch.compile
+
+        def recording(*a, _inner=inner):
+            try:
+                return _inner(*a)
+            except Exception as e:
+                raised.append(type(e).__name__)
+                raise
+        ch.compile = recording
     out = []
     for p in objs:
+        del raised[:]
         try:
             m = bool(ch.fits(p, 'actions', inq_obj.action, inq_obj)) and \
                 bool(ch.fits(p, 'subjects', inq_obj.subject, inq_obj)) and \
@@ -125,6 +138,8 @@ def direct_matches(k, objs, inq_obj):
             out.append(m)
         except Exception:
             out.append('raise')
+        if internal is not None:
+            internal.append(list(raised))
     return out
 
 
